@@ -607,3 +607,157 @@ Proof.
   exists s. eexists. eexists. eexists. split; [eapply run_state_reach; eauto|].
   vm_compute in E. injection E as <-. split; [vm_compute; reflexivity|]. split; vm_compute; reflexivity.
 Qed.
+
+(** * Where push operations come from: [ops] only grows by the environment's calls *)
+Definition is_push_op (o : op) : bool := match o with OpPush _ _ _ _ => true | _ => false end.
+
+Lemma read_cs_ops f s : ops (fst (read_cs f s)) = ops s /\ c_push (fst (read_cs f s)) = c_push s.
+Proof.
+  destruct (read_cs f s) as [s' os] eqn:E. cbn [fst]. unfold read_cs in E.
+  destruct f as [i|i|sc].
+  1,2: destruct (negb (running s)); [injection E as <- <-; auto|];
+       destruct i as [|b ms]; [cbn in E; injection E as <- <-; auto|];
+       destruct ms as [|m0 ms0]; [cbn in E; injection E as <- <-; auto|];
+       pose proof (filter_batch_sbc (m0 :: ms0) s [] []) as SB;
+       destruct (filter_batch (m0 :: ms0) s [] []) as [[s1 keep] os1]; cbn [fst] in SB; apply sbc_fields in SB;
+       destruct SB as (SB1 & _ & _ & _ & _ & SB2 & _);
+       destruct keep; [injection E as <- <-; cbn; auto|];
+       match type of E with (if ?b then _ else _) = _ => destruct b end; injection E as <- <-; cbn; auto.
+  destruct (stop_locked sc s) as [s2 os2] eqn:SL. injection E as <- <-. cbn.
+  apply stop_locked_spec in SL as [(_ & -> & _)|(_ & _ & _ & _ & _ & P & _ & _ & O & _)]; auto.
+Qed.
+
+Lemma in_del_op n o l : In o (del_op n l) -> In o l.
+Proof. unfold del_op. intros H. apply filter_In in H. tauto. Qed.
+
+Lemma raw_ops s l s' os :
+  step_raw s l = Some (s', os) ->
+  c_push s' = c_push s /\
+  forall o, In o (ops s') ->
+    In o (ops s) \/ (exists n w m p, l = LCallPush n w m p /\ c_push s = true /\ o = OpPush n w m p) \/
+    is_push_op o = false.
+Proof.
+  intros H.
+  destruct (neutral l) eqn:Neu.
+  { apply step_raw_neutral in H as [P _]; auto. apply pv_fields in P.
+    destruct P as (-> & _ & _ & _ & _ & _ & _ & -> & _). auto. }
+  destruct l; try discriminate Neu; cbn [step_raw] in H.
+  - destruct (negb (running s) && (wg s =? 0)); [|discriminate]. injection H as <- <-. cbn. auto.
+  - injection H as <- <-. cbn. auto.
+  - injection H as <- <-. cbn. split; auto. intros o I. apply in_app_iff in I as [I|[<-|[]]]; auto.
+  - injection H as <- <-. cbn. split; auto. intros o I. apply in_app_iff in I as [I|[<-|[]]]; auto.
+  - destruct (c_push s) eqn:P; injection H as <- <-; cbn; auto. split; auto.
+    intros o I. apply in_app_iff in I as [I|[<-|[]]]; auto. right. left. exists n, wantid, method, params. auto.
+  - destruct (find_idx _ 0 (cbs s)); injection H as <- <-; cbn; auto.
+  - destruct (rd s) as [| |f|]; try discriminate. injection H as H.
+    destruct (read_cs_ops f s) as [E1 E2]. rewrite H in E1, E2. cbn [fst] in *. rewrite E1, E2. auto.
+  - destruct (find_op n (ops s)) as [[| |]|]; try discriminate.
+    destruct (stop_locked SCStop _) as [s2 os2] eqn:SL. injection H as <- <-.
+    apply stop_locked_spec in SL as [(_ & -> & _)|(_ & _ & _ & _ & _ & P & _ & _ & O & _)].
+    + cbn. split; auto. intros o I. left. eapply in_del_op; eauto.
+    + rewrite P, O. cbn. split; auto. intros o I. left. eapply in_del_op; eauto.
+  - destruct (find_op n (ops s)) as [[| |]|]; try discriminate. cbn in H.
+    assert (E : ops s' = del_op n (ops s) /\ c_push s' = c_push s).
+    { destruct (assoc id (used s)); injection H as <- <-; [|auto].
+      pose proof (cancel_task_pv n1 (s <| ops ::= del_op n |>)) as P. apply pv_fields in P.
+      destruct P as (-> & _ & _ & _ & _ & _ & _ & -> & _). auto. }
+    destruct E as [-> ->]. split; auto. intros o I. left. eapply in_del_op; eauto.
+  - destruct (running s) eqn:Run.
+    + destruct (push_one_request_raw _ _ _ _ H Run) as (w & m & p & _ & _ & _ & _ & ->).
+      split; [|intros o I; left; eapply in_del_op; eauto].
+      cbn [step_raw] in H. destruct (find_op n (ops s)) as [[| |n' w' m' p']|]; try discriminate. cbn in H.
+      rewrite Run in H. cbn in H. destruct w'; [destruct (send_fail s)|]; injection H as <- _; reflexivity.
+    + destruct (gate_conn_closed _ _ _ _ Run H) as [-> _]. cbn. split; auto.
+      intros o I. left. eapply in_del_op; eauto.
+  - destruct (nth_error (cbs s) c) as [cb0|] eqn:N; [|discriminate].
+    destruct (cb_watch cb0); try discriminate.
+    destruct (assoc _ _); [|injection H as <- <-; cbn; auto].
+    destruct (cb_slot cb0); [injection H as <- <-; cbn; auto|].
+    destruct (_ =? _); [|injection H as <- <-; cbn; auto].
+    assert (E : exists v s1, ops s1 = ops s /\ c_push s1 = c_push s /\ complete_cb c v s1 = (s', os)).
+    { destruct (cb_ctx cb0) as [[|]|]; injection H as H; eexists; eexists; (split; [|split; [|exact H]]); reflexivity. }
+    destruct E as (v & s1 & E1 & E2 & E).
+    pose proof (complete_cb_sbc c v s1) as SB. rewrite E in SB. cbn [fst] in SB. apply sbc_fields in SB.
+    destruct SB as (-> & _ & _ & _ & _ & -> & _). rewrite E1, E2. auto.
+Qed.
+
+Lemma step_ops s l s' os :
+  step s l = Some (s', os) ->
+  c_push s' = c_push s /\
+  forall o, In o (ops s') ->
+    In o (ops s) \/ (exists n w m p, l = LCallPush n w m p /\ c_push s = true /\ o = OpPush n w m p) \/
+    is_push_op o = false.
+Proof.
+  intros H. apply step_obs_raw in H as (_ & s1 & os1 & ex & Raw & _ & _ & P).
+  apply pv_fields in P. destruct P as (-> & _ & _ & _ & _ & _ & _ & -> & _).
+  eapply raw_ops; eauto.
+Qed.
+
+(* every request the server pushes carries the method (and params) of a push call the environment made *)
+Lemma sendreq_from_ops s l s' os ok id m p :
+  step s l = Some (s', os) -> In (OSendReq ok id m p) os -> exists n w, In (OpPush n w m p) (ops s) /\ c_push s' = c_push s.
+Proof.
+  intros H I. destruct (step_ops _ _ _ _ H) as [CP _].
+  destruct (sends_in_critical_sections _ _ _ _ H) as (s1 & os1 & _ & _ & C & _).
+  assert (I' : In (OSendReq ok id m p) (filter is_chan_op os)) by (apply filter_In; split; auto).
+  destruct C; cbn in I'; try tauto; destruct I' as [I'|[]]; try discriminate I'.
+  injection I' as _ _ <- <-. eauto.
+Qed.
+
+Definition ops_from (P : nat -> bool -> bytes -> bytes -> Prop) (s : state) : Prop :=
+  forall n w m p, In (OpPush n w m p) (ops s) -> P n w m p.
+
+Lemma run_ops_from (P : nat -> bool -> bytes -> bytes -> Prop) : forall tr s s' oss,
+  ops_from P s -> (forall n w m p, In (LCallPush n w m p) tr -> c_push s = true -> P n w m p) ->
+  run s tr = Some (s', oss) ->
+  forall ok id m p, In (OSendReq ok id m p) (concat oss) -> exists n w, P n w m p.
+Proof.
+  induction tr as [|l r IH]; cbn; intros s s' oss O Env H ok id m p I.
+  - injection H as <- <-. destruct I.
+  - destruct (step s l) as [[s1 os]|] eqn:E; [|discriminate].
+    destruct (run s1 r) as [[s2 oss2]|] eqn:E2; [|discriminate].
+    injection H as <- <-. cbn in I. apply in_app_iff in I as [I|I].
+    + destruct (sendreq_from_ops _ _ _ _ _ _ _ _ E I) as (n & w & Io & _). eauto.
+    + destruct (step_ops _ _ _ _ E) as [CP Ops].
+      eapply (IH s1); [| |exact E2|exact I].
+      * intros n w m' p' Io. destruct (Ops _ Io) as [Old|[(n0 & w0 & m0 & p0 & -> & CPt & Eq)|NP]].
+        -- apply O; auto.
+        -- injection Eq as -> -> -> ->. apply Env; auto.
+        -- discriminate NP.
+      * intros n w m' p' Il CP1. apply Env; auto. congruence.
+Qed.
+
+Lemma ops_from_init P c : ops_from P (init_of c).
+Proof. intros n w m p []. Qed.
+
+(* C10.B3, requests: a pushed request has a non-empty method whenever the environment's push calls do *)
+Lemma sendreq_method_nonempty c tr s oss :
+  run (init_of c) tr = Some (s, oss) ->
+  (forall n w m p, In (LCallPush n w m p) tr -> m <> []) ->
+  forall ok id m p, In (OSendReq ok id m p) (concat oss) -> m <> [].
+Proof.
+  intros H Env ok id m p I.
+  destruct (run_ops_from (fun _ _ m _ => m <> []) tr _ _ _ (ops_from_init _ c)
+              (fun n w m p Il _ => Env n w m p Il) H ok id m p I) as (_ & _ & R). exact R.
+Qed.
+
+(* C09.1 over whole runs: without AllowPush no request is ever transmitted *)
+Lemma no_push_no_request c tr s oss :
+  cf_push c = false -> run (init_of c) tr = Some (s, oss) ->
+  forall ok id m p, ~ In (OSendReq ok id m p) (concat oss).
+Proof.
+  intros P H ok id m p I.
+  assert (Env : forall n w m p, In (LCallPush n w m p) tr -> c_push (init_of c) = true -> False).
+  { intros n w m' p' _ CP. cbn in CP. congruence. }
+  destruct (run_ops_from (fun _ _ _ _ => False) tr _ _ _ (ops_from_init _ c) Env H ok id m p I) as (_ & _ & []).
+Qed.
+
+Example sendreq_method_nonvacuous :
+  exists s oss, run (init_of cfg_push) [LStart; LCallPush 5 false [109]%N []; LRelPush 5] = Some (s, oss) /\
+    In (OSendReq true [] [109]%N []) (concat oss).
+Proof. eexists. eexists. split; [vm_compute; reflexivity|]. cbn. auto. Qed.
+
+Example no_push_no_request_nonvacuous :
+  exists s oss, run (init_of cfg_nopush) [LStart; LCallPush 5 true [109]%N []; LCallPush 6 false [109]%N []] = Some (s, oss) /\
+    oss = [[]; [ORet 5 APushUnsupported]; [ORet 6 APushUnsupported]] /\ step s (LRelPush 5) = None.
+Proof. eexists. eexists. split; [vm_compute; reflexivity|]. split; vm_compute; reflexivity. Qed.
